@@ -72,6 +72,8 @@ def r8(ctx, cfg):
     a failed dispatch is returned as it is unless the sub-message asked for a reply on error"""
     from rules import C02
     C02.r2(ctx, cfg, R="C17.R8", only=lambda oc, ro: oc == "Err")
+    # ... and the dispatch itself hands the message to the router unconditionally and returns the router's verdict (C02.R1)
+    C02.r1(ctx, cfg, R="C17.R8")
 
 
 def r7(ctx, cfg):
